@@ -405,10 +405,12 @@ theorem invoke_TP (call : Storage → NodeId → Storage × Res Nat) (P : Prog)
   split
   · exact TP.refl _
   · simp only []
-    have h0 : TP s { s with stack := ⟨id, [], 1⟩ :: s.stack, runs := bump s.runs id.fn, log := id :: s.log } :=
+    have h0 : TP s { s with stack := ⟨id, [], 1⟩ :: s.stack, runs := bump s.runs id.fn, log := id :: s.log,
+                            events := (false, id) :: s.events } :=
       TP.of_eq rfl rfl rfl rfl
     have h1 := evalE_TP call P hc (fnOf P id.fn).body id.arg
-      { s with stack := ⟨id, [], 1⟩ :: s.stack, runs := bump s.runs id.fn, log := id :: s.log }
+      { s with stack := ⟨id, [], 1⟩ :: s.stack, runs := bump s.runs id.fn, log := id :: s.log,
+               events := (false, id) :: s.events }
     split
     · rename_i s1 v heq
       rw [heq] at h1
